@@ -34,6 +34,7 @@ def dispatch (line : String) : String :=
   | "prj" :: rest => Bld.handlePrj rest
   | "prjd" :: rest => Bld.handlePrjd rest
   | "rdq" :: rest => Rdq.handle rest
+  | "mrgb" :: rest => Rdq.handleMrgb rest
   | _ => "bad-request"
 
 partial def loop (h : IO.FS.Stream) (out : IO.FS.Stream) : IO Unit := do
